@@ -12,8 +12,12 @@ from vlib import log
 
 PROP = "C18"
 PKG = "limitsx"
+# the box is shared with other builders: bound every JVM (TLC's default is a quarter of the RAM each)
+HEAP_BIG = {"JAVA_TOOL_OPTIONS": "-Xss64m -Xmx6g"}
+HEAP_SMALL = {"JAVA_TOOL_OPTIONS": "-Xss64m -Xmx2g"}
+HEAP_TRACE = {"JAVA_TOOL_OPTIONS": "-Xss64m -Xmx2g -Dtlc2.tool.queue.IStateQueue=StateDeque"}
 
-ENV_OPS = {"Arrive", "Disconnect", "CloseListener", "StopBegin", "ThAdd", "ThRefuse", "ThCheck", "AllowCheck", "Handshake",
+ENV_OPS = {"Arrive", "Disconnect", "CloseListener", "StopBegin", "ThAdd", "ThRefuse", "ThCheck", "AllowCheck", "Refuse", "Handshake",
            "Handle", "ThDone", "AddPeer"}
 FAIL_OUT = {"lost", "rejected", "dropsub", "dropshut", "droppeer"}
 
@@ -50,7 +54,7 @@ M_THOROUGH = [("Limits_rpc_mc.cfg", "RPC pipeline 2 peers x 2 RPCs, caps {1,2} x
               ("Limits_conn_mc.cfg", "connection lifecycle 3 in + 2 out, intended design, incl. liveness"),
               ("Limits_tg_mc.cfg", "plain thread group, incl. liveness"),
               ("Limits_rpc_disc.cfg", "RPC pipeline with peers hanging up at any moment"),
-              ("Limits_rpc_mc3x2.cfg", "RPC pipeline 3 peers (two share a subnet) x 2 RPCs"),
+              ("Limits_rpc_mc3.cfg", "RPC pipeline 3 peers in one subnet (2+1+1 RPCs), subnet limit {1,2}"),
               ("Limits_rpc_mc2x3.cfg", "RPC pipeline 2 peers x 3 RPCs")]
 M_DEVS = [("Limits_conn_cap.cfg", "PeerCaps"),             # the code as it is: check-then-act
           ("Limits_rpc_dev_leak.cfg", "NoSlotLeak"),
@@ -63,7 +67,7 @@ def leg_m(wd, tier):
     out = []
 
     def one(cfg, what):
-        r = vlib.run_tlc(wd, "MCLimits", cfg, workers=4 if tier == "quick" else 8, timeout=1500)
+        r = vlib.run_tlc(wd, "MCLimits", cfg, workers=4 if tier == "quick" else 8, timeout=1500, env=HEAP_BIG)
         vlib.tlc_must_pass(r, what)
         return cfg, what, r
     # quick: the four runs are small and run side by side; thorough: big runs one after the other
@@ -72,12 +76,12 @@ def leg_m(wd, tier):
             log("  M: %s: %d distinct states, %d transitions, depth %d, %.1fs" % (what, r.distinct, r.generated, r.depth, r.wall))
             out.append(r)
     # the implementation-shaped connection lifecycle must violate PeerCaps in the model (design-level counterexample)
-    r = vlib.run_tlc(wd, "MCLimits", "Limits_conn_cap.cfg", workers=2, timeout=600)
+    r = vlib.run_tlc(wd, "MCLimits", "Limits_conn_cap.cfg", workers=2, timeout=600, env=HEAP_SMALL)
     if r.exit == 0 or r.violated != "PeerCaps":
         raise vlib.Infra("the implementation-shaped AllowCheck/AddPeer split was expected to violate PeerCaps in TLC, got exit=%s violated=%s\n%s"
                          % (r.exit, r.violated, r.out[-1500:]))
     log("  M: DevCapCheckThenAct (allowConnect counts, addPeer inserts later): TLC finds the PeerCaps counterexample (%d states)" % r.distinct)
-    r = vlib.run_tlc(wd, "MCLimits", "Limits_conn_sweep.cfg", workers=2, timeout=600)
+    r = vlib.run_tlc(wd, "MCLimits", "Limits_conn_sweep.cfg", workers=2, timeout=600, env=HEAP_SMALL)
     if r.exit == 0 or not (r.error and "Temporal propert" in r.error and "StopReturns" in r.error):
         raise vlib.Infra("the implementation-shaped teardown (peers closed once, addPeer inserts later) was expected to violate StopReturns in TLC, got exit=%s %s\n%s"
                          % (r.exit, r.error, r.out[-1500:]))
@@ -189,7 +193,7 @@ def sample_paths(paths, n, rng):
 
 
 def leg_r_rpc(wd, tier, binary, verdict, mutate=None):
-    r = vlib.run_tlc(wd, "MCLimits", "Limits_rpc_edges.cfg", workers=1, timeout=900)
+    r = vlib.run_tlc(wd, "MCLimits", "Limits_rpc_edges.cfg", workers=1, timeout=900, env=HEAP_SMALL)
     vlib.tlc_must_pass(r, "Limits RPC edge export")
     states, inits, macro = macro_graph(r.edges)
     need_ops(r.edges, {"Arrive", "AcquirePeer", "AcquireSubnet", "DropSubnet", "Spawn", "TgAdd", "Handle", "HandleDone",
@@ -258,10 +262,10 @@ def tlc_counterexample_ops(out):
 
 
 def leg_r_conn(wd, tier, binary, verdict):
-    r = vlib.run_tlc(wd, "MCLimits", impl_cfg(wd, "Limits_conn_edges.cfg"), workers=1, timeout=900, tag="MCLimits_Limits_conn_edges")
+    r = vlib.run_tlc(wd, "MCLimits", impl_cfg(wd, "Limits_conn_edges.cfg"), workers=1, timeout=900, tag="MCLimits_Limits_conn_edges", env=HEAP_SMALL)
     vlib.tlc_must_pass(r, "Limits CONN edge export")
     states, inits, macro = macro_graph(r.edges)
-    need_ops(r.edges, {"AllowCheck", "Handshake", "AddPeer", "RunPeer", "RemovePeer", "Abort", "CloseListener", "StopBegin", "StopReturn",
+    need_ops(r.edges, {"AllowCheck", "Refuse", "Handshake", "AddPeer", "RunPeer", "RemovePeer", "Abort", "CloseListener", "StopBegin", "StopReturn",
                        "ClosePeers", "RunExit"}, "CONN")
     rng = random.Random(vlib.seed() + 1)
     groups = []
@@ -276,7 +280,7 @@ def leg_r_conn(wd, tier, binary, verdict):
         groups.append({"maxIn": lim["maxIn"], "conns": conns, "paths": [mk(p) for p in paths]})
         npaths += len(paths)
     # TLC's own PeerCaps counterexample (Limits_conn_impl.cfg), replayed literally, first path of its group
-    cx = vlib.run_tlc(wd, "MCLimits", "Limits_conn_cap.cfg", workers=1, timeout=600, tag="conn_cx")
+    cx = vlib.run_tlc(wd, "MCLimits", "Limits_conn_cap.cfg", workers=1, timeout=600, tag="conn_cx", env=HEAP_SMALL)
     ops = [(o, p) for o, p in tlc_counterexample_ops(cx.out) if o in ENV_OPS and p in conns]
     cxlim = None
     import re
@@ -316,7 +320,7 @@ def tg_obs(s):
 
 
 def leg_r_tg(wd, tier, binary, verdict, targets=None):
-    r = vlib.run_tlc(wd, "MCLimits", "Limits_tg_edges.cfg", workers=1, timeout=600)
+    r = vlib.run_tlc(wd, "MCLimits", "Limits_tg_edges.cfg", workers=1, timeout=600, env=HEAP_SMALL)
     vlib.tlc_must_pass(r, "Limits TG edge export")
     states, inits, macro = macro_graph(r.edges)
     need_ops(r.edges, {"ThAdd", "ThRefuse", "ThDone", "StopBegin", "StopWait", "StopReturn"}, "TG")
@@ -364,7 +368,7 @@ def validate_file(wd, path, cfg, tag, verdict, max_iter=14, depth=0):
         if vlib.count_lines(path) == 0:
             break
         try:
-            ok, r, consumed = vlib.validate_trace(wd, "LimitsTrace", impl_cfg(wd, cfg), path, timeout=300 if depth == 0 else 120, tag="%s_%d" % (tag, it))
+            ok, r, consumed = vlib.validate_trace(wd, "LimitsTrace", impl_cfg(wd, cfg), path, timeout=300 if depth == 0 else 120, tag="%s_%d" % (tag, it), extra_env=HEAP_TRACE)
         except vlib.Infra as ex:
             if "timeout" not in str(ex):
                 raise
@@ -624,7 +628,7 @@ def selftest():
                 ok &= check("Stop returned while a member was live", lines, "LimitsTrace_tg.cfg"); break
     # 3: named deviations
     for cfg, want in M_DEVS + [("Limits_conn_sweep.cfg", "temporal")]:
-        x = vlib.run_tlc(wd, "MCLimits", cfg, workers=4, timeout=600)
+        x = vlib.run_tlc(wd, "MCLimits", cfg, workers=4, timeout=600, env=HEAP_SMALL)
         if x.violated is None and x.error and "Temporal propert" in x.error:
             x.violated = "temporal"
         good_ = x.exit != 0 and x.violated is not None and (want is None or x.violated == want)
